@@ -71,7 +71,7 @@ def confirm(cand, new_id):
         shutil.copy(demo, os.path.join(dst, 'demo.py'))
         with open(os.path.join(cand, 'meta.json')) as f:
             meta = json.load(f)
-        meta['round'] = 2
+        meta['round'] = int(os.environ.get('SEEDED_ROUND', '2'))
         meta['confirmed'] = {
             'repo_head': head,
             'ran': ['git worktree add --detach <scratch> HEAD', PY + ' demo.py  (unchanged tree)',
